@@ -91,6 +91,7 @@ type FnCtx struct {
 	extraEnv map[string]Val
 	ghostRet *Val
 	curLoopFrame  []*frame
+	paramVals     map[string]Val // symbolic entry values of the parameters (replay rebuilds inputs from them)
 	curLoopBlocks map[*ssa.BasicBlock]bool
 }
 
